@@ -1,5 +1,7 @@
 import Logrange.Proofs.TruncateDry
 import Logrange.Proofs.TruncateWriter
+import Logrange.Proofs.TruncateDisk
+import Logrange.Proofs.TruncateUnsel
 import Logrange.Generated.C09
 /-!
 # C09 — Truncation removes only whole oldest chunks, within the requested bounds
@@ -38,6 +40,8 @@ theorem code_shape :
     Generated.C09.hullUpdateIndependentIfs = true ∧
     -- deleteJournal re-checks the size under its exclusive lock, after a Sync (eafecef)
     Generated.C09.deleteJournalRechecksSize = true ∧ Generated.C09.deleteJournalSyncsBeforeRecheck = true ∧
+    -- deleteJournal removes the partition's own folder from the disk, nothing above it
+    Generated.C09.deleteJournalRemovesOwnFolderOnly = true ∧
     -- the visitor of Service.Truncate flushes before it looks at the partition's size, dry run included (466355c)
     Generated.C09.truncateVisitorSyncsBeforeSize = true ∧
     -- cac5c5d: equal latest timestamps are ordered by source id
@@ -158,6 +162,23 @@ theorem dryrun_changes_nothing (p : Params) (hd : p.dryRun = true) (order : List
   unfold phase1
   rw [phase1_foldl_db_dry strict p hd]; rfl
 
+/-- **Partitions that do not match the source condition are untouched — the whole command, MAXDBSIZE pass included.**
+For every layout, every parameter combination (DRYRUN or not, any MINSIZE / MAXSIZE / BEFORE / MAXDBSIZE), every
+visiting order and any holders (`users` arbitrary), with distinct source ids: the partitions the condition does not
+select are afterwards exactly the records they were, in the same relative order, and no report line names one of
+them. (Phase I skips them before anything is read; the MAXDBSIZE pass only ever looks up source ids of entries phase I
+made, and it makes entries for selected partitions only.) -/
+theorem unselected_untouched (p : Params) (order : List Part) (hnd : (order.map (·.src)).Nodup) :
+    (runNow p order).db.filter (fun q => !q.sel) = order.filter (fun q => !q.sel) ∧
+    ∀ r ∈ (runNow p order).reports, ∀ q ∈ order, q.sel = false → r.src ≠ q.src :=
+  run_unselected_untouched strict gMin gMax p order hnd
+
+/-- non-vacuity: a selected partition above MAXSIZE loses a chunk, the unselected one beside it (same layout) stays -/
+example :
+    let order : List Part := [⟨1, true, 0, [⟨1, 10, 5⟩, ⟨2, 10, 6⟩]⟩, ⟨2, false, 0, [⟨1, 10, 5⟩, ⟨2, 10, 6⟩]⟩]
+    (runNow { maxSrc := 10 } order).db ≠ order ∧
+    (runNow { maxSrc := 10 } order).db.filter (fun q => !q.sel) = order.filter (fun q => !q.sel) := by decide
+
 /-- **What the MAXDBSIZE pass guarantees**: every entry of the sorted list is either left alone or its partition is
 taken whole (`after = 0`, `deleted`), and the pass does nothing at all when the total is within MAXDBSIZE. -/
 theorem global_pass (p : Params) (infos : List Info) (ts : Nat) (db : List Part) :
@@ -254,6 +275,32 @@ theorem canDelete_is_drop_step (users : Nat) (cks : List Chunk) : canDelete user
 `truncate`'s snapshot and the lock is dropped with the event in it -/
 theorem cex_drop_without_recheck : deleteJournalAt false 0 [⟨2, 19, 500⟩] = true ∧ deleteJournalAt true 0 [⟨2, 19, 500⟩] = false := by
   decide
+
+/-- **Dropping a partition leaves the files of every other partition alone** — also of one that lives in the same
+two-character parent folder (`<dir>/<bucket>/<id>`, any bucket function, equal buckets included): `deleteJournal`
+hands `os.RemoveAll` the partition's own folder (regenerated from the source), and the folders of two different
+partitions are not nested. What goes is exactly what lies at or below the dropped partition's folder. -/
+theorem drop_leaves_other_partitions_files {α : Type} [DecidableEq α] (bucket : α → α) (base : List α) (id : α)
+    (files : List (List α)) :
+    (∀ other f, other ≠ id → f ∈ files → partFolder bucket base other <+: f →
+      f ∈ dropOnDisk Generated.C09.deleteJournalRemovesOwnFolderOnly bucket base id files) ∧
+    (∀ f, f ∈ dropOnDisk Generated.C09.deleteJournalRemovesOwnFolderOnly bucket base id files ↔
+      f ∈ files ∧ ¬ partFolder bucket base id <+: f) := by
+  have hfact : Generated.C09.deleteJournalRemovesOwnFolderOnly = true := by decide
+  rw [hfact]
+  refine ⟨fun other f hne hf hin => keeps_other bucket base id other files f hne hf hin, fun f => ?_⟩
+  simp only [dropOnDisk, dropTarget, if_true]
+  exact mem_removeAll _ _ _
+
+/-- non-vacuity: partitions 0x1CC and 0x2CC share the folder 0xCC; dropping the first keeps the second one's file -/
+example : dropOnDisk true (· % 256) [0] 0x1CC [[0, 0xCC, 0x1CC, 7], [0, 0xCC, 0x2CC, 7], [0, 0xC8, 0x1C8, 7]] =
+    [[0, 0xCC, 0x2CC, 7], [0, 0xC8, 0x1C8, 7]] := by decide
+
+/-- removing the parent folder as well (a seeded change the check must catch) takes the files of the partition that
+shares it -/
+theorem cex_drop_removes_shared_folder :
+    dropOnDisk false (· % 256) [0] 0x1CC [[0, 0xCC, 0x1CC, 7], [0, 0xCC, 0x2CC, 7], [0, 0xC8, 0x1C8, 7]] =
+      [[0, 0xC8, 0x1C8, 7]] := by decide
 
 /-- **A partition is not dropped while it holds acknowledged records, flushed or not** (fix eafecef): `deleteJournal`
 flushes under the exclusive lock before it re-checks the size — both regenerated from the source. -/
